@@ -258,10 +258,10 @@ def harnesses():
                           bounds=["two steps: %s then any of the %d operations, each on one of %d representative (target, key) pairs"
                                   % (name, NOPS, len(REP_TK))]))
         hs.append(Harness(id="C08.history.2full.%s" % name, fn=make_history(2, op, True), group="history.2", functions=FNS, per_path=30,
-                          budget=20000, tier="thorough", replay=history_replay(2, op, True), must_exhaust=False,
+                          budget=2400, tier="thorough", replay=history_replay(2, op, True), must_exhaust=False,
                           bounds=["two steps, every operation x target x key in both"]))
         hs.append(Harness(id="C08.history.3.%s" % name, fn=make_history(3, op, False), group="history.3", functions=FNS, per_path=30,
-                          budget=6000, tier="thorough", replay=history_replay(3, op, False), must_exhaust=False,
+                          budget=1200, tier="thorough", replay=history_replay(3, op, False), must_exhaust=False,
                           bounds=["three steps (bug hunting: not exhausted within the budget)"]))
     for name, src in CALLS.call_programs():
         hs.append(Harness(id="C08.%s" % name, fn=make_call(src), group=name.split(".")[0], functions=FNS, per_path=30, budget=120,
